@@ -152,8 +152,6 @@ func g2ClassifyHandshakeErr(err error) string {
 		return "err:unproposed"
 	case strings.Contains(msg, "unsupported protocol version accepted"):
 		return "err:nodecoder"
-	case strings.Contains(msg, "network magic mismatch"):
-		return "err:magic"
 	case strings.Contains(msg, "refused due to version mismatch"):
 		return "err:sent-mismatch"
 	case strings.Contains(msg, "refused due to protocol parameters decode failure"):
@@ -162,6 +160,8 @@ func g2ClassifyHandshakeErr(err error) string {
 		return "err:sent-refused"
 	case strings.Contains(msg, "query mode: connection terminated after query reply"):
 		return "err:sent-queryreply"
+	case strings.Contains(msg, "network magic mismatch"):
+		return "err:magic"
 	case strings.Contains(msg, "cannot unmarshal"), strings.Contains(msg, "cbor:"), strings.Contains(msg, "EOF"):
 		return "err:decode"
 	}
